@@ -247,6 +247,16 @@ func (e *EvalBinaryNode) EvalInt(scope *Scope, executionState ExecutionState) (i
 }
 
 func (e *EvalBinaryNode) eval(scope *Scope, executionState ExecutionState) (resultContainer, *ErrSide) {
+	return e.evalRetry(scope, executionState, 0)
+}
+
+// maxTypeGuardRetries bounds the re-specialisation of the evaluation function: each
+// operand's type can be corrected once from the type guard information. An operand that
+// fails its type guard again afterwards (for example the unary node in -'a' + 'b', which
+// reports string but cannot be evaluated as one) would otherwise make eval recurse for ever.
+const maxTypeGuardRetries = 2
+
+func (e *EvalBinaryNode) evalRetry(scope *Scope, executionState ExecutionState, retries int) (resultContainer, *ErrSide) {
 	if e.evaluationFn == nil {
 		err := e.determineError(scope, executionState)
 		return boolFalseResultContainer, &ErrSide{error: err}
@@ -259,23 +269,15 @@ func (e *EvalBinaryNode) eval(scope *Scope, executionState ExecutionState) (resu
 	// in the first evaluation "value" is float64 so we will have float64 > float64 comparison fn
 	// after the first evaluation, let's assume that "value" is changed to int64 - we need to change
 	// the comparison fn
-	if err != nil {
+	if err != nil && retries < maxTypeGuardRetries {
 		if typeGuardErr, isTypeGuardError := err.error.(ErrTypeGuardFailed); isTypeGuardError {
 			// Fix the type info, thanks to the type guard info
-			fixed := false
-			if err.IsLeft && e.leftType != typeGuardErr.ActualType {
+			if err.IsLeft {
 				e.leftType = typeGuardErr.ActualType
-				fixed = true
 			}
 
-			if err.IsRight && e.rightType != typeGuardErr.ActualType {
+			if err.IsRight {
 				e.rightType = typeGuardErr.ActualType
-				fixed = true
-			}
-			if !fixed {
-				// The operand already has the reported type: trying again would pick the
-				// same evaluation function and fail the same way, for ever.
-				return boolFalseResultContainer, err
 			}
 
 			// redefine the evaluation fn
@@ -285,7 +287,7 @@ func (e *EvalBinaryNode) eval(scope *Scope, executionState ExecutionState) (resu
 			}
 
 			// try again
-			return e.eval(scope, executionState)
+			return e.evalRetry(scope, executionState, retries+1)
 		}
 	}
 
